@@ -42,6 +42,13 @@ CHECKS = {
             "DESIGN.md C11", "A requester-side write failure need only leave the stream closed (statement promises 'closed' for sides that "
             "close, are told to close, or fail while serving). close() from a second thread racing the serving thread is outside the "
             "statement's quantifier (no schedules) and is not generated."),
+    "C15": ("exploration",
+            "deterministic simulation in virtual time: seeded timelines of reply instants, expiries, busy periods and queries; oracle = executable AsyncResult/mailbox model compared instant by instant",
+            "Seeded search over virtual-time orderings of reply arrival, expiry, callback registration, ready/error/expired/value/wait/repr queries, "
+            "set_expiry and unrelated traffic that keeps the client busy, for async_, timed and synchronous requests; every answer, raised class "
+            "and the exact virtual instant of every return is compared with a small executable model (equalities on dyadic instants, not tolerances).",
+            "DESIGN.md C15", "'Reply arrives' is read as 'reply is processed by the client thread'; exact arrival/expiry ties and negative "
+            "timeouts are not generated."),
 }
 
 NOT_APPLICABLE = {
